@@ -1079,6 +1079,7 @@ static bool configure(const std::string &job, Tier tier)
 	if (job == "buffer" || job == "buffer:typed") {
 		bool typed = job != "buffer";
 		cfg.depth = tier == Quick ? 5 : 40;
+		if (typed) cfg.rawcap = 1;
 		// new: b = 2*kind + large, c = counter preset MAX-1
 		if (!typed) { for (int v : {0, 1}) { add_ops(o, B_NEW, S, 0, 0); for (size_t i = o.size() - S; i < o.size(); ++i) o[i].b = v; add_ops(o, B_NEW, S, 0, 1); for (size_t i = o.size() - S; i < o.size(); ++i) o[i].b = v; } }
 		else for (int v : {2, 3, 4, 0}) { add_ops(o, B_NEW, S, 0, 0); for (size_t i = o.size() - S; i < o.size(); ++i) o[i].b = v; }
